@@ -262,6 +262,39 @@ def audit(prop_id, coqchk=False):
     return res
 
 
+def generic_replay(path):
+    """re-run the failing inputs recorded in a replay file against the current /repo"""
+    ensure_path()
+    obj = json.load(open(path))
+    fails = obj.get('failing_inputs')
+    if fails is None:
+        print('this replay file names theorems / correspondences that no longer check (no concrete failing input):')
+        print(json.dumps({k: obj.get(k) for k in ('theorems_no_longer_checked', 'n_disagreements', 'correspondences_broken')}, indent=1)[:3000])
+        print('re-run the check itself to see whether they check again')
+        return 2
+    still = 0
+    rerun = 0
+    for f in fails:
+        r = f.get('replay')
+        if not r:
+            continue
+        rerun += 1
+        mod = __import__(r['module'], fromlist=['x'])
+        payload = r['payload']
+        if isinstance(payload, list):
+            payload = tuple(payload)
+        v = getattr(mod, r['function'])(payload)
+        if v is not None:
+            still += 1
+            print('STILL FAILS: %s: %s' % (json.dumps(f['input'])[:300], str(v)[:300]))
+    if rerun == 0:
+        print('the recorded failing inputs (kind %s) carry no re-runnable oracle; first input:' % obj.get('kind'))
+        print(json.dumps(fails[0], indent=1)[:2000])
+        return 2
+    print('%d of %d recorded failing inputs still fail' % (still, rerun))
+    return 1 if still else 0
+
+
 # ---------------------------------------------------------------- findings, evidence, verdict
 def load_known_findings():
     path = os.path.join(VERIF, 'KNOWN_FINDINGS.jsonl')
@@ -299,8 +332,13 @@ class Ctx:
         """register a distinct non-trivial case (hashed to keep memory small)"""
         self.nontrivial.add(hashlib.blake2b(repr(key).encode('utf-8', 'surrogatepass'), digest_size=8).digest())
 
-    def fail(self, kind, inp, what, finding=None):
-        self.failures.append({'kind': kind, 'input': inp, 'what': what, 'finding': finding})
+    def fail(self, kind, inp, what, finding=None, replay=None):
+        """replay = (module, function, payload): calling module.function(payload) on the current /repo returns None when the
+        property holds on that input again, a description otherwise (used by `check.py <id> --replay <file>`)"""
+        f = {'kind': kind, 'input': inp, 'what': what, 'finding': finding}
+        if replay is not None:
+            f['replay'] = {'module': replay[0], 'function': replay[1], 'payload': replay[2]}
+        self.failures.append(f)
 
     def disagree(self, op, inp, model, impl):
         self.disagreements.append({'op': op, 'input': inp, 'model': model, 'impl': impl})
